@@ -29,13 +29,13 @@ theorem block_cut (rules : List BRule) (maxNesting : Int) (endLine : Nat) (fuel 
       generalize hl1 : skipEmptyLines s (s.lineMax + 1) line = line1 at hsk hskle
       have hl1max : line1 ≤ s.lineMax := by omega
       split
-      · exact ⟨_, rfl, ⟨rfl, rfl, rfl, rfl⟩, ⟨fun _ => ⟨hsk.1, hl1max, fun _ => by show line < line1; omega⟩, fun h => absurd hlt h⟩⟩
+      · exact ⟨_, rfl, ⟨⟨rfl, rfl⟩, rfl, rfl, rfl⟩, ⟨fun _ => ⟨hsk.1, hl1max, fun _ => by show line < line1; omega⟩, fun h => absurd hlt h⟩⟩
       · have hlt1 : line1 < s.lineMax := by omega
         obtain ⟨l, hl, hne⟩ := hsk.2 hlt1
         simp only [hl]
         split
         · rename_i hout
-          refine ⟨_, rfl, ⟨rfl, rfl, rfl, rfl⟩, ⟨fun _ => ⟨hsk.1, hl1max, fun hstart => ?_⟩, fun h => absurd hlt h⟩⟩
+          refine ⟨_, rfl, ⟨⟨rfl, rfl⟩, rfl, rfl, rfl⟩, ⟨fun _ => ⟨hsk.1, hl1max, fun hstart => ?_⟩, fun h => absurd hlt h⟩⟩
           show line < line1
           by_cases heq : line1 = line
           · subst heq
@@ -43,7 +43,7 @@ theorem block_cut (rules : List BRule) (maxNesting : Int) (endLine : Nat) (fuel 
             have hout' : l.sCount < s.blkIndent := hout
             omega
           · have := hsk.1; omega
-        · exact ⟨_, rfl, ⟨rfl, rfl, rfl, rfl⟩, ⟨fun _ => ⟨by show line ≤ endLine; omega, hend, fun _ => hlt⟩, fun h => absurd hlt h⟩⟩
+        · exact ⟨_, rfl, ⟨⟨rfl, rfl⟩, rfl, rfl, rfl⟩, ⟨fun _ => ⟨by show line ≤ endLine; omega, hend, fun _ => hlt⟩, fun h => absurd hlt h⟩⟩
     · rename_i hnlt
       exact ⟨s, rfl, frameEq_refl s, ⟨fun h => absurd h hnlt, fun _ => rfl⟩⟩
 
@@ -93,6 +93,12 @@ theorem restoreLines_fields (saved : List BLine) : ∀ (s : BState) (start : Nat
     simp only [restoreLines]
     have := ih (s.setLine start l) (start + 1)
     simpa using this
+
+theorem restoreLines_listIndent (saved : List BLine) : ∀ (s : BState) (start : Nat),
+    (restoreLines s start saved).listIndent = s.listIndent := by
+  induction saved with
+  | nil => intro s start; rfl
+  | cons l rest ih => intro s start; simp only [restoreLines]; rw [ih]; rfl
 
 theorem restoreLines_get (saved : List BLine) : ∀ (s : BState) (start i : Nat),
     (restoreLines s start saved).lines[i]? =
@@ -192,7 +198,7 @@ theorem quoteScan_ok (terms : List BRule) (hin : ∀ t ∈ terms, SilentInert t)
       ∃ next' s2 saved', quoteScan terms endLine fuel next le cur saved = .ok (next', s2, saved') ∧
         next ≤ next' ∧ next' ≤ endLine ∧ ScanInv orig start s2 saved' ∧
         s2.blkIndent = cur.blkIndent ∧ s2.level = cur.level ∧ s2.tokens = cur.tokens ∧ s2.line = cur.line ∧
-        (s2.lineMax = cur.lineMax ∨ s2.lineMax = next') ∧ (∀ i, i < next → s2.lines[i]? = cur.lines[i]?) := by
+        (s2.lineMax = cur.lineMax ∨ s2.lineMax = next') ∧ (∀ i, i < next → s2.lines[i]? = cur.lines[i]?) ∧ s2.listIndent = cur.listIndent := by
   intro fuel
   induction fuel with
   | zero => intro next _ _ _ h; omega
@@ -206,20 +212,20 @@ theorem quoteScan_ok (terms : List BRule) (hin : ∀ t ∈ terms, SilentInert t)
       have stop : ∃ next' s2 saved', (Except.ok (next, cur, saved) : Except PyErr (Nat × BState × List BLine)) = .ok (next', s2, saved') ∧
           next ≤ next' ∧ next' ≤ endLine ∧ ScanInv orig start s2 saved' ∧
           s2.blkIndent = cur.blkIndent ∧ s2.level = cur.level ∧ s2.tokens = cur.tokens ∧ s2.line = cur.line ∧
-          (s2.lineMax = cur.lineMax ∨ s2.lineMax = next') ∧ (∀ i, i < next → s2.lines[i]? = cur.lines[i]?) :=
-        ⟨next, cur, saved, rfl, Nat.le_refl _, hne, hinv, rfl, rfl, rfl, rfl, Or.inl rfl, fun _ _ => rfl⟩
+          (s2.lineMax = cur.lineMax ∨ s2.lineMax = next') ∧ (∀ i, i < next → s2.lines[i]? = cur.lines[i]?) ∧ s2.listIndent = cur.listIndent :=
+        ⟨next, cur, saved, rfl, Nat.le_refl _, hne, hinv, rfl, rfl, rfl, rfl, Or.inl rfl, fun _ _ => rfl, rfl⟩
       -- a recursive step on a state whose lines are `cur.lines.set next l'`
       have step : ∀ (le' : Bool) (cur' : BState) (l' : BLine), cur'.lines = cur.lines.set next l' → cur'.lineMax = cur.lineMax →
-          cur'.blkIndent = cur.blkIndent → cur'.level = cur.level → cur'.tokens = cur.tokens → cur'.line = cur.line →
+          cur'.blkIndent = cur.blkIndent → cur'.level = cur.level → cur'.tokens = cur.tokens → cur'.line = cur.line → cur'.listIndent = cur.listIndent →
           ∃ next' s2 saved', quoteScan terms endLine n (next + 1) le' cur' (saved ++ [l]) = .ok (next', s2, saved') ∧
             next ≤ next' ∧ next' ≤ endLine ∧ ScanInv orig start s2 saved' ∧
             s2.blkIndent = cur.blkIndent ∧ s2.level = cur.level ∧ s2.tokens = cur.tokens ∧ s2.line = cur.line ∧
-            (s2.lineMax = cur.lineMax ∨ s2.lineMax = next') ∧ (∀ i, i < next → s2.lines[i]? = cur.lines[i]?) := by
-        intro le' cur' l' hc hm hb hv ht hli
+            (s2.lineMax = cur.lineMax ∨ s2.lineMax = next') ∧ (∀ i, i < next → s2.lines[i]? = cur.lines[i]?) ∧ s2.listIndent = cur.listIndent := by
+        intro le' cur' l' hc hm hb hv ht hli hlI
         have hinv' := scanInv_step hinv next hnext l l' hl cur' hc
-        obtain ⟨nx, s2, sv, h1, h2, h3, h4, h5, h6, h7, h8, h9, h10⟩ := ih (next + 1) le' cur' (saved ++ [l]) (by omega) (by omega)
+        obtain ⟨nx, s2, sv, h1, h2, h3, h4, h5, h6, h7, h8, h9, h10, h11⟩ := ih (next + 1) le' cur' (saved ++ [l]) (by omega) (by omega)
           (by rw [hc, List.length_set]; exact hlen) (by rw [hm]; exact hmax) hinv' (by simp; omega)
-        refine ⟨nx, s2, sv, h1, by omega, h3, h4, by rw [h5, hb], by rw [h6, hv], by rw [h7, ht], by rw [h8, hli], ?_, ?_⟩
+        refine ⟨nx, s2, sv, h1, by omega, h3, h4, by rw [h5, hb], by rw [h6, hv], by rw [h7, ht], by rw [h8, hli], ?_, ?_, by rw [h11, hlI]⟩
         · rcases h9 with h9 | h9
           · exact Or.inl (by rw [h9, hm])
           · exact Or.inr h9
@@ -228,7 +234,7 @@ theorem quoteScan_ok (terms : List BRule) (hin : ∀ t ∈ terms, SilentInert t)
       split
       · exact stop
       · split
-        · exact step _ _ _ rfl rfl rfl rfl rfl rfl
+        · exact step _ _ _ rfl rfl rfl rfl rfl rfl rfl
         · split
           · exact stop
           · obtain ⟨b, hb⟩ := runTerminators_inert terms hin cur next endLine (by omega)
@@ -238,16 +244,16 @@ theorem quoteScan_ok (terms : List BRule) (hin : ∀ t ∈ terms, SilentInert t)
               simp only
               split
               · simp only [hg]
-                refine ⟨next, _, _, rfl, Nat.le_refl _, hne, ?_, rfl, rfl, rfl, rfl, Or.inr rfl, ?_⟩
+                refine ⟨next, _, _, rfl, Nat.le_refl _, hne, ?_, rfl, rfl, rfl, rfl, Or.inr rfl, ?_, rfl⟩
                 · exact scanInv_step hinv next hnext l _ hl _ rfl
                 · intro i hi
                   simp only [setLine_lines]
                   rw [List.getElem?_set_ne (by omega)]
-              · exact ⟨next, _, saved, rfl, Nat.le_refl _, hne, ⟨hinv.len, hinv.saved_orig, hinv.rest⟩, rfl, rfl, rfl, rfl, Or.inr rfl, fun _ _ => rfl⟩
+              · exact ⟨next, _, saved, rfl, Nat.le_refl _, hne, ⟨hinv.len, hinv.saved_orig, hinv.rest⟩, rfl, rfl, rfl, rfl, Or.inr rfl, fun _ _ => rfl, rfl⟩
             | false =>
               simp only [hg]
-              exact step _ _ _ rfl rfl rfl rfl rfl rfl
-    · exact ⟨next, cur, saved, rfl, Nat.le_refl _, hne, hinv, rfl, rfl, rfl, rfl, Or.inl rfl, fun _ _ => rfl⟩
+              exact step _ _ _ rfl rfl rfl rfl rfl rfl rfl
+    · exact ⟨next, cur, saved, rfl, Nat.le_refl _, hne, hinv, rfl, rfl, rfl, rfl, Or.inl rfl, fun _ _ => rfl, rfl⟩
 
 /-! ### the contract of the quote rule, by induction on the depth budget -/
 
@@ -292,7 +298,7 @@ theorem quote_shape (mn : Int) (d : Nat) (codeOn : Bool) (terms : List BRule) (h
       have hinv0 : ScanInv s.lines line s [] := ⟨rfl, fun j hj => by simp at hj, fun _ _ => rfl⟩
       have hinv1 : ScanInv s.lines line ({ (s.setLine line (quoteStrip l0).1) with parentType := "blockquote" }) ([] ++ [l0]) :=
         scanInv_step hinv0 line (by simp) l0 _ hl0 _ rfl
-      obtain ⟨next, s2, saved, hscan, hn1, hn2, hinv2, hb2, hv2, ht2, hli2, hlm2, hpre2⟩ :=
+      obtain ⟨next, s2, saved, hscan, hn1, hn2, hinv2, hb2, hv2, ht2, hli2, hlm2, hpre2, hlI2⟩ :=
         quoteScan_ok terms hin s.lines line endLine (endLine - line + 1) (line + 1) (quoteStrip l0).2
           ({ (s.setLine line (quoteStrip l0).1) with parentType := "blockquote" }) [l0]
           (by omega) (by have := hc.lt; omega) (by simp; exact hlenE) hc.le (by simpa using hinv1) (by simp)
@@ -325,9 +331,14 @@ theorem quote_shape (mn : Int) (d : Nat) (codeOn : Bool) (terms : List BRule) (h
         omega
       refine ⟨_, rfl, ?_, ?_, ?_, ⟨next, s2, s4, ht2, hv2, by simpa using hlm3.1, by simpa using hlm3.2.1, hLv3, hrun, ?_, ?_⟩⟩
       · -- frame
-        refine ⟨?_, ?_, ?_, ?_⟩
+        refine ⟨⟨?_, ?_⟩, ?_, ?_, ?_⟩
         · show (restoreLines _ line saved).lines = s.lines
-          exact restore_lines s.lines line s2 saved hinv2 _ (by simp; rw [hfr4.1]; rfl)
+          exact restore_lines s.lines line s2 saved hinv2 _ (by simp; rw [hfr4.1.1]; rfl)
+        · show (restoreLines _ line saved).listIndent = s.listIndent
+          rw [restoreLines_listIndent]
+          show s4.listIndent = s.listIndent
+          rw [hfr4.1.2]
+          exact hlI2
         · show (restoreLines _ line saved).lineMax = s.lineMax
           rw [(restoreLines_fields saved _ line).1]
         · show s2.blkIndent = s.blkIndent
@@ -391,7 +402,7 @@ theorem ruleOK_blockquote (mn : Int) (d : Nat) (codeOn : Bool) (terms : List BRu
     · rw [h'] at h; cases h
   · intro s line endLine m s' hc h
     rcases key s line endLine hc with h' | ⟨s'', h', hf, _⟩
-    · rw [h'] at h; cases h; exact ⟨rfl, rfl, rfl, rfl⟩
+    · rw [h'] at h; cases h; exact ⟨⟨rfl, rfl⟩, rfl, rfl, rfl⟩
     · rw [h'] at h; cases h; exact hf
 
 /-- the chains: every rule satisfies its contract at its depth, and the nested runs are total with frame and line bounds -/
